@@ -443,7 +443,7 @@ class Network(Cached):
         :arg  edge_list: [[i,j]] for edges i -> j
         """
         #  Convert to Numpy array and get number of nodes
-        edges = np.array(edge_list)
+        edges = np.array(edge_list, dtype=int).reshape(-1, 2)
 
         if n_nodes is None:
             N = edges.max() + 1
@@ -454,9 +454,12 @@ class Network(Cached):
         if not self.directed:
             edges = np.append(edges, edges[:, [1, 0]], axis=0)
 
-        #  Create sparse adjacency matrix from edge list
+        #  Create sparse adjacency matrix from edge list; an edge that is
+        #  listed more than once (or in both directions of an undirected
+        #  network) is still one link
         sp_A = sp.coo_matrix(
-            (np.ones_like(edges.T[0]), tuple(edges.T)), shape=(N, N))
+            (np.ones_like(edges.T[0]), tuple(edges.T)), shape=(N, N)).tocsc()
+        sp_A.data[:] = 1
 
         #  Set sparse adjacency matrix
         self.adjacency = sp_A
@@ -625,15 +628,17 @@ class Network(Cached):
         directed = graph.is_directed()
 
         #  Extract edge list
-        edges = np.array(graph.get_edgelist())
+        edges = np.array(graph.get_edgelist(), dtype=int).reshape(-1, 2)
 
         #  Symmetrize if undirected network
         if not directed:
             edges = np.append(edges, edges[:, [1, 0]], axis=0)
 
-        #  Create sparse adjacency matrix from edge list
+        #  Create sparse adjacency matrix from edge list (multiple edges of
+        #  the graph are one link)
         sp_A = sp.coo_matrix(
-            (np.ones_like(edges.T[0]), tuple(edges.T)), shape=(N, N))
+            (np.ones_like(edges.T[0]), tuple(edges.T)), shape=(N, N)).tocsc()
+        sp_A.data[:] = 1
 
         #  Extract node weights
         if "node_weight_nsi" in graph.vs.attribute_names():
